@@ -31,9 +31,13 @@ def fm_config(I, fee=None, max_concurrent=2, buffer=14, min_unlock=DAY, max_unlo
     return cfg
 
 
-def set_epoch(I, epoch_id, genesis=0, duration=DAY, now_nanos=None):
+def set_epoch(I, epoch_id, genesis=0, duration=DAY, now_nanos=None, now_s=None):
     """the epoch manager as seen by the farm manager: id = floor((now-genesis)/duration) (C18)"""
     I.world.meta['epoch'] = {'id': epoch_id, 'genesis': genesis, 'duration': duration}
+    if now_s is not None:
+        now_nanos = simp(now_s * NS)
+        # the contract proved for the epoch manager (C18): start(id) <= now < start(id+1)
+        I.assume(smt.And(genesis + epoch_id * duration <= now_s, now_s < genesis + (epoch_id + 1) * duration))
     if now_nanos is not None:
         I.world.meta['time_nanos'] = now_nanos
 
@@ -178,3 +182,16 @@ def manage_farm(action, **kw):
 
 def claim_msg(until=None):
     return mk_enum('mantra_dex_std::farm_manager::ExecuteMsg', 'Claim', until_epoch=NONE() if until is None else Some(until))
+
+
+def set_ownership(I, ckey, owner='admin', pending=None, expiry=None):
+    o = mk('cw_ownable::Ownership', owner=NONE() if owner is None else Some(owner),
+           pending_owner=NONE() if pending is None else Some(pending), pending_expiry=NONE() if expiry is None else Some(expiry))
+    I.world.store(ckey)['ownership'] = o
+    return o
+
+
+def farm_params(lp_denom, reward, start=None, end=None, ident=None):
+    return mk('mantra_dex_std::farm_manager::FarmParams', lp_denom=lp_denom, start_epoch=NONE() if start is None else Some(start),
+              preliminary_end_epoch=NONE() if end is None else Some(end), curve=NONE(), farm_asset=reward,
+              farm_identifier=NONE() if ident is None else Some(ident))
